@@ -354,3 +354,88 @@ func SeqEq(a, b []zed.Value) (int, bool) {
 	}
 	return -1, true
 }
+
+// Consistent checks, independently of zed.Value.Validate, that bytes are
+// structurally consistent with typ: containers hold exactly the items their
+// type calls for (record fields, map key/value pairs), union tags and enum
+// selectors are in range, recursively, including under error and named types.
+// Primitive leaves are not interpreted.
+func Consistent(typ zed.Type, b zcode.Bytes) (err error) {
+	defer func() {
+		if p := recover(); p != nil {
+			err = fmt.Errorf("container encoding cannot be walked: %v", p)
+		}
+	}()
+	return consistent(typ, b)
+}
+
+func consistent(typ zed.Type, b zcode.Bytes) error {
+	if b == nil {
+		return nil
+	}
+	switch t := typ.(type) {
+	case *zed.TypeNamed:
+		return consistent(t.Type, b)
+	case *zed.TypeError:
+		return consistent(t.Type, b)
+	case *zed.TypeRecord:
+		it := b.Iter()
+		for _, f := range t.Fields {
+			if it.Done() {
+				return fmt.Errorf("record body ends before field %q", f.Name)
+			}
+			if err := consistent(f.Type, it.Next()); err != nil {
+				return err
+			}
+		}
+		if !it.Done() {
+			return fmt.Errorf("record body has more items than the type has fields")
+		}
+	case *zed.TypeArray:
+		for it := b.Iter(); !it.Done(); {
+			if err := consistent(t.Type, it.Next()); err != nil {
+				return err
+			}
+		}
+	case *zed.TypeSet:
+		for it := b.Iter(); !it.Done(); {
+			if err := consistent(t.Type, it.Next()); err != nil {
+				return err
+			}
+		}
+	case *zed.TypeMap:
+		for it := b.Iter(); !it.Done(); {
+			if err := consistent(t.KeyType, it.Next()); err != nil {
+				return err
+			}
+			if it.Done() {
+				return fmt.Errorf("map body has a key without a value")
+			}
+			if err := consistent(t.ValType, it.Next()); err != nil {
+				return err
+			}
+		}
+	case *zed.TypeUnion:
+		it := b.Iter()
+		if it.Done() {
+			return fmt.Errorf("union body is empty")
+		}
+		tag := zed.DecodeInt(it.Next())
+		if tag < 0 || int(tag) >= len(t.Types) {
+			return fmt.Errorf("union tag %d but the type has %d members", tag, len(t.Types))
+		}
+		if it.Done() {
+			return fmt.Errorf("union body has a tag and no value")
+		}
+		v := it.Next()
+		if !it.Done() {
+			return fmt.Errorf("union body has more than a tag and a value")
+		}
+		return consistent(t.Types[tag], v)
+	case *zed.TypeEnum:
+		if sel := zed.DecodeUint(b); sel >= uint64(len(t.Symbols)) {
+			return fmt.Errorf("enum selector %d but the type has %d symbols", sel, len(t.Symbols))
+		}
+	}
+	return nil
+}
